@@ -55,9 +55,9 @@ func (r *Run) ChooseCost(n int, label string, cost []int) int {
 }
 
 // Observe appends to the observation log (order matters).
-func (r *Run) Observe(b ...byte)      { r.obs = append(r.obs, b...) }
-func (r *Run) ObserveS(s string)      { r.obs = append(r.obs, s...); r.obs = append(r.obs, 0) }
-func (r *Run) Observation() []byte    { return r.obs }
+func (r *Run) Observe(b ...byte)   { r.obs = append(r.obs, b...) }
+func (r *Run) ObserveS(s string)   { r.obs = append(r.obs, s...); r.obs = append(r.obs, 0) }
+func (r *Run) Observation() []byte { return r.obs }
 func (r *Run) Labels() []string {
 	out := make([]string, len(r.points))
 	for i, p := range r.points {
